@@ -1086,9 +1086,13 @@ def part_c_e2e(ctx: Ctx, ncases: int, seqs=None):
     async def go():
         from ipv8.dht.community import DHTCommunity
         from ipv8.dht.routing import Node
+        from ipv8.dht.payload import FindResponsePayload
+        from ipv8.messaging.interfaces.udp.endpoint import UDPv6Address
+        from ipv8.messaging.payload_headers import BinMemberAuthenticationPayload
         for i in range(ncases):
             mep.internet.clear()
             W = World(rng)
+            dual = (rng.random() < 0.4) if not seqs else bool(seqs[i][1])
             nodes = [det_node(rng, DHTCommunity) for _ in range(4)]
             for n in nodes:
                 n.overlay.cancel_pending_task("node_maintenance")
@@ -1104,7 +1108,7 @@ def part_c_e2e(ctx: Ctx, ncases: int, seqs=None):
                 if rng.random() < 0.7:
                     specs.append(("sig", 0, rng.randrange(3), rng.choice([1, 2, 3, 4])))
                 if seqs:
-                    specs = list(seqs[i][si])
+                    specs = list(seqs[i][0][si])
                 spec_lists.append(specs)
                 st = s.overlay.get_storage(Node(s.my_peer.key, s.my_peer.address))
                 for sp in specs:
@@ -1112,18 +1116,42 @@ def part_c_e2e(ctx: Ctx, ncases: int, seqs=None):
                     # a (possibly dishonest) server holds whatever it likes: bypass its own add_value checks
                     st.put(key, b, id_=hashlib.sha1(b).digest())
                     held.append(b)
-                client.overlay.get_routing_table(Node(s.my_peer.key, s.my_peer.address)).add(
-                    Node(s.my_peer.public_key, s.my_peer.address))
-            replay = {"part": "E", "servers": spec_lists}
+                saddr = s.my_peer.address
+                if dual and si == len(servers) - 1:
+                    # dual-stack client: this server is known (and reached) over IPv6, so the lookup runs a second crawl
+                    saddr = UDPv6Address("2001:db8::%x" % (si + 6), 6000 + si)
+                    mep.internet[saddr] = s.endpoint
+                rn = Node(s.my_peer.public_key, saddr)
+                client.overlay.get_routing_table(rn).add(rn)
+            replay = {"part": "E", "servers": spec_lists, "dual": dual}
+            ctx.count("C.e2e:dual-stack" if dual else "C.e2e:single-stack")
+            # what the lookup SAW: the values in the find responses that reached the client (not what servers hold)
+            seen_vals = []
+            orig_notify = client.endpoint.notify_listeners
+
+            def tap(packet, _orig=orig_notify, _seen=seen_vals, _ov=client.overlay):
+                try:
+                    data = packet[1]
+                    if data[:22] == _ov.get_prefix() and data[22] == FindResponsePayload.msg_id:
+                        auth, _ = _ov.serializer.unpack_serializable(BinMemberAuthenticationPayload, data, offset=23)
+                        rem = data[2 + len(auth.public_key_bin):-64]
+                        _seen.extend(_ov.serializer.unpack_serializable_list([FindResponsePayload], rem, offset=23)[0].values)
+                except Exception:   # not a find response we can read: the lookup cannot have seen values in it either
+                    pass
+                return _orig(packet)
+            client.endpoint.notify_listeners = tap
             try:
                 res = await client.overlay.find_values(key)
             except Exception as e:
                 ctx.count("C.e2e:raised:" + type(e).__name__)
                 res = None
             if res is not None:
-                seen_vals = [b for b in held]
-                # only values the servers actually returned (max 8 each) can be reported; all held here are <= 6 per server
-                safe_check_lookup(ctx, W, list(dict.fromkeys(seen_vals)), list(res), "DHTCommunity.find_values", replay)
+                unknown = [b for b in seen_vals if b not in W.truth]
+                ctx.count("C.e2e:seen%d-of-held%d" % (min(len(set(seen_vals)), 9), min(len(set(held)), 9)))
+                safe_check_lookup(ctx, W, [b for b in dict.fromkeys(seen_vals) if b in W.truth], list(res),
+                                  "DHTCommunity.find_values", replay)
+                if unknown:
+                    ctx.count("C.e2e:unknown-values-seen")
                 ctx.count("C.e2e:results%d" % min(len(res), 6))
             # caching / own-storage side effects of the lookup: whatever a node stored on behalf of the lookup (not put
             # there by the harness) must be a valid entry
@@ -1492,7 +1520,7 @@ def replay(ctx: Ctx, rec: dict):
     elif part == "F":
         part_f(ctx, 1, ctx.model_ok, seqs=[[[_tuplify(o) for o in rd] for rd in r["rounds"]]])
     elif part == "E" and "servers" in r:
-        part_c_e2e(ctx, 1, seqs=[[[_tuplify(o) for o in sv] for sv in r["servers"]]])
+        part_c_e2e(ctx, 1, seqs=[([[_tuplify(o) for o in sv] for sv in r["servers"]], r.get("dual", False))])
     else:
         print("replay: this record has no re-runnable input")
         return
